@@ -96,7 +96,7 @@ Definition less (a b : scipher) : bool :=
 Fixpoint insert (x : scipher) (l : list scipher) : list scipher :=
   match l with
   | [] => [x]
-  | y :: t => if less x y then x :: l else y :: insert x t
+  | y :: t => if less y x then y :: insert x t else x :: l
   end.
 Fixpoint isort (l : list scipher) : list scipher :=
   match l with [] => [] | x :: t => insert x (isort t) end.
@@ -112,7 +112,7 @@ Definition removeRC4Ciphers (s : list N) : list N := filter (fun c => negb (is_r
 (* u_conn.go:817; uint16 subtraction wraps, make() panics on a huge length - neither
    arises for the (min,max) pairs the generator passes (0x0301|0x0303, 0x0304) *)
 Definition makeSupportedVersions (minV maxV : N) : list N :=
-  map (fun i => u16 (maxV + 65536 - N.of_nat i)) (seq 0 (N.to_nat (u16 (maxV + 65536 - minV) + 1))).
+  map (fun i => u16 (maxV + 65536 - N.of_nat i)) (seq 0 (N.to_nat (u16 (maxV + 65536 + 1 - minV)))).
 
 (* ---- constants (checked against the Go values by a CConsts case) ---- *)
 Definition VersionTLS10 : N := 769.  Definition VersionTLS12 : N := 771.  Definition VersionTLS13 : N := 772.
